@@ -175,7 +175,8 @@ class Impl(object):
         time.time = self.clk.real
         time.sleep = self.clk.real_sleep
         nd = self.drivers._newDrivers
-        nd[:] = [x for x in nd if x[1] is not self.S]
+        keep = [x for x in nd if x[1] is not self.S]
+        nd.clear(); nd.extend(keep)      # list or deque: no slice assignment
 
     def fail(self, msg):
         self.fails.append((self.opi, msg))
@@ -456,14 +457,14 @@ def _do(self, op):
                     # through the real drivers.run(), with this Schedule as the 'Schedule' driver
                     d = self.drivers
                     sv = (dict(d._drivers), set(d._deadDrivers), list(d._newDrivers))
-                    d._drivers.clear(); d._drivers['Schedule'] = S; d._deadDrivers.clear(); del d._newDrivers[:]
+                    d._drivers.clear(); d._drivers['Schedule'] = S; d._deadDrivers.clear(); d._newDrivers.clear()
                     try:
                         d.run()
                         alive = d._drivers.get('Schedule') is S and 'Schedule' not in d._deadDrivers
                     finally:
                         d._drivers.clear(); d._drivers.update(sv[0])
                         d._deadDrivers.clear(); d._deadDrivers.update(sv[1])
-                        d._newDrivers[:] = sv[2]
+                        d._newDrivers.clear(); d._newDrivers.extend(sv[2])
                     self.tags.add('via-drivers.run')
                     if not alive:
                         ret = 'dead'
